@@ -141,10 +141,14 @@ class Mutator:
                     if self.have_blobs:
                         self.state.set_current("blobs", blobs)
 
-                # Correct logZ for fraction of prior with finite likelihood support
+                # logZ of this prior batch is the log fraction of the prior with
+                # finite likelihood support. It is the batch's own estimate, not a
+                # correction on top of the running value: the running value is
+                # re-estimated from the history (which already contains the
+                # correction of earlier warm-up batches) at every iteration.
                 n_finite = len(finite_idx)
                 n_total = len(logl)
-                logz = self.state.get_current("logz") + np.log(n_finite / n_total)
+                logz = np.log(n_finite / n_total)
                 self.state.set_current("logz", logz)
             return
 
